@@ -6,6 +6,7 @@ import (
 	"crypto"
 	stdecdsa "crypto/ecdsa"
 	"crypto/elliptic"
+	"crypto/sha256"
 	"errors"
 	"fmt"
 	"io"
@@ -576,7 +577,9 @@ func TestManySignaturesDER(t *testing.T) {
 			rnd := rt.NewDRBG([]byte(fmt.Sprintf("many signatures %d %d %d", rt.BaseSeed, rt.Shard, w)))
 			var myCnt, mySmall int64
 			for ci, c := range []elliptic.Curve{elliptic.P256(), elliptic.P224()} {
-				d := new(big.Int).SetBytes(bytes.Repeat([]byte{byte(0x17 + ci + rt.Shard + 31*w)}, 24))
+				// a valid key per (curve, shard, worker): 1 + (hash mod 2^190), never zero and below every curve order
+				dh := sha256.Sum256([]byte(fmt.Sprintf("many signatures key %d %d %d", ci, rt.Shard, w)))
+				d := new(big.Int).Add(new(big.Int).SetBytes(dh[:23]), big.NewInt(1))
 				pk, _ := patecdsa.CreateKey(c, d.Bytes())
 				x, y := c.ScalarBaseMult(d.Bytes())
 				std := &stdecdsa.PublicKey{Curve: c, X: x, Y: y}
@@ -633,4 +636,65 @@ func TestManySignaturesDER(t *testing.T) {
 	s.EvalN(cnt)
 	s.NontrivialEnum(small)
 	s.Sample(func() any { return map[string]any{"signatures": cnt, "with_leading_zero_byte": small} })
+}
+
+// TestVerifyAfterVerify: verdicts must not depend on what was verified before. A valid signature whose r (or s) has a
+// leading zero byte is verified first; then pairs that are "the same bytes differently cut" follow - the boundary between
+// r and s moved by one byte in either direction, r and s swapped, the same pair under a digest with a zero byte appended -
+// each compared with crypto/ecdsa.
+func TestVerifyAfterVerify(t *testing.T) {
+	s := rt.S("verify-after-verify").SetRule("per case a key on one of four curves, a digest, and a valid signature with a short r or s found by re-signing; sequence: Verify(valid) [must agree with crypto/ecdsa: true], then Verify of (r[1:]||s[0], 00||s[1:]), (00||r[:n-1], r[n-1]||s[1:]) , (s, r), (r, s) under digest||00, all against crypto/ecdsa. non-trivial = every follow-up pair; distinct by (curve, key, digest, pair)")
+	rt.Check(t, 40, 8000, func(t *rapid.T) {
+		c := gen.Pick(t, curves, "curve")
+		pk, sk := drawKey(t, c)
+		digest := gen.Digest(t, "digest")
+		size := (c.Params().N.BitLen() + 7) / 8
+		entropy := rt.NewDRBG(gen.Seed().Draw(t, "entropy"))
+		wantShortR := rapid.Bool().Draw(t, "shortR")
+		var r, sv *big.Int
+		for try := 0; try < 4000; try++ {
+			hr, hs, err := stdecdsa.Sign(entropy, sk, digest)
+			if err != nil {
+				t.Fatalf("std sign: %v", err)
+			}
+			if (wantShortR && len(hr.Bytes()) < size) || (!wantShortR && len(hs.Bytes()) < size) {
+				r, sv = hr, hs
+				break
+			}
+		}
+		if r == nil {
+			t.Skip("no signature with a short component found")
+		}
+		if !patecdsa.Verify(&pk.PublicKey, digest, r, sv) {
+			rt.Fail(t, "C13/verify-verdict", "valid signature with a short component rejected: r %x s %x", r, sv)
+			return
+		}
+		rb, sb := r.FillBytes(make([]byte, size)), sv.FillBytes(make([]byte, size))
+		cat := append(append([]byte{}, rb...), sb...)
+		type pair struct {
+			name string
+			r, s *big.Int
+			d    []byte
+		}
+		followUps := []pair{
+			{"boundary-moved-left", new(big.Int).SetBytes(cat[1 : size+1]), new(big.Int).SetBytes(append([]byte{0}, cat[size+1:]...)), digest},
+			{"boundary-moved-right", new(big.Int).SetBytes(append([]byte{0}, cat[:size-1]...)), new(big.Int).SetBytes(append([]byte{cat[size-1]}, cat[size+1:]...)), digest},
+			{"swapped", sv, r, digest},
+			{"digest-extended-by-zero", r, sv, append(append([]byte{}, digest...), 0)},
+			{"digest-prefixed-by-zero", r, sv, append([]byte{0}, digest...)},
+		}
+		for _, p := range followUps {
+			s.Eval()
+			s.Class(p.name)
+			s.Nontrivial([]byte(c.Params().Name), pk.X.Bytes(), p.d, p.r.Bytes(), []byte{0}, p.s.Bytes())
+			want := stdecdsa.Verify(&sk.PublicKey, p.d, p.r, p.s)
+			if got := patecdsa.Verify(&pk.PublicKey, p.d, p.r, p.s); got != want {
+				rt.Fail(t, "C13/verify-after-verify/"+p.name, "after verifying the valid pair (r %x, s %x), the pair (r %x, s %x) over digest %x gets verdict %v; crypto/ecdsa says %v (%s)", r, sv, p.r, p.s, p.d, got, want, c.Params().Name)
+				return
+			}
+		}
+		s.Sample(func() any {
+			return map[string]any{"curve": c.Params().Name, "r": fmt.Sprintf("%x", r), "s": fmt.Sprintf("%x", sv)}
+		})
+	})
 }
